@@ -131,6 +131,8 @@ func (s *source) Read(p []byte) (int, error) {
 			return 0, fmt.Errorf("%w: %w", errSrc, io.EOF)
 		case "wrap_ueof":
 			return 0, fmt.Errorf("%w: %w", errSrc, io.ErrUnexpectedEOF)
+		case "bare_ueof": // the source's OWN failure is the bare sentinel (e.g. it wraps a truncated archive member)
+			return 0, io.ErrUnexpectedEOF
 		}
 		return 0, errSrc
 	}
@@ -289,6 +291,13 @@ func (b *countingBody) Read(p []byte) (int, error) {
 
 func (b *countingBody) Close() error { b.st.onClose(); return b.rdr.Close() }
 
+func orStr(v any, def string) any {
+	if v == nil {
+		return def
+	}
+	return v
+}
+
 // failWriter accepts `room` bytes, then fails.
 type failWriter struct {
 	room   int
@@ -361,7 +370,12 @@ func (t scriptedRT) RoundTrip(req *http.Request) (*http.Response, error) {
 		closeBody()
 		return nil, err
 	}
-	if e.s.TFault == "before" {
+	if sch := req.URL.Scheme; sch != "http" && sch != "https" {
+		// as net/http's Transport: a scheme it cannot speak is refused before anything of the request is read
+		closeBody()
+		return nil, fmt.Errorf("verif transport: unsupported protocol scheme %q", sch)
+	}
+	if e.s.TFault == "before" && drv.Str(orStr(e.d["scheme"], "http")) == "http" {
 		closeBody()
 		return nil, errTransport
 	}
@@ -653,7 +667,18 @@ func runCallOnce(d M) (res M) {
 	} else {
 		rtr = scriptedRT{e: e}
 	}
-	rt := client.New(host, "/api", []string{"http"})
+	// the scheme: "transport error before the body is consumed" may also be realised by a scheme the transport cannot
+	// speak (ws / wss, as a swagger spec may declare), selected on the runtime or on the operation
+	scheme, schemeAt := drv.Str(orStr(d["scheme"], "http")), drv.Str(orStr(d["scheme_at"], "runtime"))
+	rtSchemes, opSchemes := []string{"http"}, []string{"http"}
+	if scheme != "http" {
+		if schemeAt == "runtime" {
+			rtSchemes = []string{scheme}
+		} else {
+			rtSchemes, opSchemes = nil, []string{scheme}
+		}
+	}
+	rt := client.New(host, "/api", rtSchemes)
 	rt.Transport = rtr
 	if s.Reuse {
 		rt.EnableConnectionReuse()
@@ -662,7 +687,7 @@ func runCallOnce(d M) (res M) {
 		rt.BasePath = "/%zz"
 	}
 	op := &oaruntime.ClientOperation{ID: "verif", Method: "POST", PathPattern: "/upload",
-		ProducesMediaTypes: []string{"application/octet-stream"}, Schemes: []string{"http"}}
+		ProducesMediaTypes: []string{"application/octet-stream"}, Schemes: opSchemes}
 	switch ctxAt {
 	case "rt":
 		rt.Context = parent
